@@ -81,9 +81,54 @@ class SMapped(V):
         self.value = value
 
 
+class SJsonTok(V):
+    """what a nested object's serialize() returned, in a JSON round-trip proof: an opaque JSON value that
+    the matching deserialize turns back into that object (the pair is proved by the nested class's own
+    target)"""
+
+    kind = "jsontok"
+
+    def __init__(self, obj, extra=()):
+        self.obj = obj
+        self.extra = tuple(extra)
+
+
+class SFlagsTok(V):
+    """nodes.get_flags(node, names): the list of those names whose attribute is true, as one opaque JSON
+    value; nodes.set_flags(other, tok) sets exactly those attributes to True on `other`"""
+
+    kind = "flagstok"
+
+    def __init__(self, obj, names):
+        self.obj = obj
+        self.names = list(names)
+
+
+def json_flag_overrides():
+    def get_flags(I, args, kw):
+        node, names = args[0], args[1]
+        items = I.try_iter_concrete(names)
+        if items is None or not all(isinstance(x, SStr) and z3.is_string_value(simp(x.t)) for x in items):
+            raise Unsupported("get_flags with a symbolic name list")
+        return SFlagsTok(node, [simp(x.t).as_string() for x in items])
+
+    def set_flags(I, args, kw):
+        node, tok = args[0], args[1]
+        if not isinstance(tok, SFlagsTok):
+            raise Unsupported("set_flags applied to a value that is not the output of get_flags")
+        for name in tok.names:
+            cur = I.getattr(node, name)
+            src = I.getattr(tok.obj, name)
+            I.setattr(node, name, SBool(z3.Or(I.truth(src), I.truth(cur))), None)
+        return NONE
+
+    return {"mypy.nodes:get_flags": get_flags, "mypy.nodes:set_flags": set_flags}
+
+
 class Codec:
     def __init__(self, I, nested_readers=(), tag_of_class=None):
         self.I = I
+        self.json = False
         self.root = None
         self.root_read_started = False
         self.root_write_started = False
